@@ -1,4 +1,4 @@
-"""E9 - definite assignment: a forward must-analysis over the statements of one function.
+"""E10 - definite assignment: a forward must-analysis over the statements of one function.
 
 State = (set of local names bound on every path reaching this point, set of branch facts that hold here).
 A *fact* is (dump of an `if` test, polarity); it is dropped as soon as one of the names the test reads is re-bound.
